@@ -3,11 +3,13 @@
    Model: coq/Compact/Model.v -- relocation as a page-renaming map over a rose tree of pages, mirroring
    relocate_helper / relocate_subtrees (copy to the target, rewrite child pointers, free the old page, do
    not descend below a page the map does not name), plus the guards of Database::compact.
-   NOT proved (observed per run by harness/src/bin/c13.rs, and said so in the manifest): that the file
-   never grows, that the compaction loop ends within a bound, and crash safety of the commits compaction
-   issues (those are ordinary commits: C01). *)
+   Guard.v: the guards as a step machine against a concurrent writer.  Pass.v: the pass loop at the level of
+   page positions (order-0 pages, unbounded space): termination, packing, highest position at the end.
+   NOT proved (observed per run by harness/src/bin/c13.rs, and said so in the manifest): the length of the
+   FILE (regions, buddy orders, the pages the commits of compaction themselves allocate, try_shrink), and
+   crash safety of the commits compaction issues (those are ordinary commits: C01). *)
 From Coq Require Import List NArith Bool.
-From RV Require Import Compact.Model Compact.ModelP.
+From RV Require Import Gen.Consts Compact.Model Compact.ModelP Compact.Guard Compact.GuardP Compact.Pass Compact.PassP.
 Import ListNotations.
 Open Scope N_scope.
 
@@ -70,3 +72,142 @@ Example c13_nonvacuous_guard :
   compact (mkTracker 0 2 1) ex_map ex_tree = ((mkTracker 0 2 1, ex_tree), Some EEphemeral)
   /\ snd (compact (mkTracker 0 0 0) ex_map ex_tree) = None.
 Proof. vm_compute. split; reflexivity. Qed.
+
+(* ---- the guards against a concurrent writer (step model coq/Compact/Guard.v).
+   For EVERY interleaving of compact()'s steps (three up-front checks, wait for the write slot, three checks
+   inside the write transaction, relocation) with a write transaction that was already open (it may create
+   ephemeral / persistent savepoints, commit, abort) and with drops of existing savepoints / read
+   transactions: compact() gets past its guards only when no savepoint and no reader exists, while it holds
+   the write slot, and that stays so until it returns.  One of the two tracker re-checks suffices (every
+   savepoint owns a read reference); without both the statement is false (c13_guard_no_tracker_recheck_refuted). *)
+Theorem c13_guard_interleavings_safe : forall v p e r w wn ls s,
+  re_sp v || re_rd v = true ->
+  grun v ls (ginit p e r w wn) = Some s -> answer s = ARan -> quiet s.
+Proof. exact guard_safe. Qed.
+
+Theorem c13_guard_code_safe : forall p e r w wn ls s,
+  grun v_code ls (ginit p e r w wn) = Some s -> answer s = ARan ->
+  quiet s /\ (g_pc s = CRun -> g_slot s = HCompact).
+Proof. exact guard_safe_code. Qed.
+
+Theorem c13_guard_refuses_live_object : forall p e r w wn ls s,
+  grun v_code ls (ginit p e r w wn) = Some s ->
+  (persistent_sp (g_trk s) <> 0 \/ ephemeral_sp (g_trk s) <> 0 \/ user_reads (g_trk s) <> 0) ->
+  answer s <> ARan.
+Proof. exact guard_refuses_live_object. Qed.
+
+Theorem c13_guard_sequential_agrees : forall p e r,
+  exists s, grun v_code [LC; LC; LC; LC; LC; LC; LC] (ginit p e r false 0) = Some s
+    /\ answer s = match guard (mkTracker p e r) with Some x => ARefused x | None => ARan end.
+Proof. exact sequential_agrees. Qed.
+
+Definition ex_sched : list label := [LC; LC; LC; LEsp; LCommit; LC; LC; LC; LC].
+Example c13_guard_recheck_catches :
+  option_map answer (grun v_code ex_sched (ginit 0 0 0 true 0)) = Some (ARefused EEphemeral)
+  /\ option_map answer (grun v_code [LC; LC; LC; LPsp; LCommit; LC; LC] (ginit 0 0 0 true 0)) = Some (ARefused EPersistent)
+  /\ option_map answer (grun v_code [LC; LC; LC; LPsp; LAbort; LC; LC; LC; LC] (ginit 0 0 0 true 0)) = Some ARan
+  /\ option_map answer (grun v_code [LC; LC; LC; LEsp; LCommit; LC; LDropEsp; LC; LC; LC] (ginit 0 0 0 true 0)) = Some ARan
+  /\ grun v_code [LC; LC; LC; LC] (ginit 0 0 0 true 0) = None.
+Proof. vm_compute. repeat split; reflexivity. Qed.
+
+Example c13_guard_no_tracker_recheck_refuted :
+  exists s, grun v_no_tracker_recheck ex_sched (ginit 0 0 0 true 0) = Some s
+    /\ answer s = ARan /\ ephemeral_sp (g_trk s) = 1 /\ ~ quiet s.
+Proof.
+  eexists. split; [vm_compute; reflexivity|]. split; [reflexivity|]. split; [reflexivity|].
+  unfold quiet. simpl. intros (_ & H & _). discriminate.
+Qed.
+
+(* ---- the pass loop at the level of page positions (model coq/Compact/Pass.v) *)
+
+(* one pass that reports progress: no page used twice afterwards, contents and shape unchanged, the number of
+   pages unchanged, no page of the old version overwritten, the map closed under ancestors (so the relocation
+   theorems above apply to every tree), and the measure (sums of positions per depth, deepest level first,
+   compared lexicographically) strictly smaller *)
+Theorem c13_pass_progress : forall cap f f', wfF f = true -> pass cap f = (f', true) ->
+  wfF f' = true /\ fabs f' = fabs f /\ fshape f' = fshape f
+  /\ length (fids f') = length (fids f)
+  /\ lexlt (msr (fpaths f')) (msr (fpaths f))
+  /\ (forall t, In t (targets (pass_map cap f)) -> ~ In t (fids f))
+  /\ (forall t, In t f -> closed_anc (pass_map cap f) t = true).
+Proof. exact pass_progress. Qed.
+
+(* a pass that reports no progress changes nothing and found nothing free below the highest page *)
+Theorem c13_pass_no_progress : forall cap f f', wfF f = true -> (1 <= cap)%nat -> pass cap f = (f', false) ->
+  f' = f /\ (forall x, x < maxN (fids f) -> In x (fids f)).
+Proof. exact pass_no_progress. Qed.
+
+(* the order the measure decreases in is well founded: there is no infinite sequence of progressing passes,
+   and the loop of Database::compact reaches its closing pass from every well-formed state *)
+Theorem c13_lexlt_wf : well_founded lexlt.
+Proof. exact lexlt_wf. Qed.
+
+Theorem c13_progressing_passes_wf : forall cap, well_founded (fun f' f => wfF f = true /\ pass cap f = (f', true)).
+Proof. exact progressing_passes_wf. Qed.
+
+Theorem c13_loop_terminates : forall cap f, wfF f = true -> exists fuel g n, compact_loop fuel cap f = (g, n, true).
+Proof. exact loop_terminates. Qed.
+
+(* end to end: contents and shape unchanged, no page twice, packed, highest position not above the one before *)
+Theorem c13_loop_result : forall fuel cap f g n, wfF f = true -> (1 <= cap)%nat -> compact_loop fuel cap f = (g, n, true) ->
+  wfF g = true /\ fabs g = fabs f /\ fshape g = fshape f
+  /\ (forall x, x < maxN (fids g) -> In x (fids g))
+  /\ maxN (fids g) <= maxN (fids f).
+Proof. exact loop_result. Qed.
+
+(* a single pass can raise the highest position (parents are moved wherever the lowest free page is), but not
+   beyond twice the number of pages *)
+Theorem c13_pass_growth_bound : forall cap f f' pr, wfF f = true -> pass cap f = (f', pr) ->
+  forall x, In x (fids f') -> x <= maxN (fids f) \/ x < 2 * N.of_nat (length (fids f)).
+Proof. exact pass_growth_bound. Qed.
+
+(* the checker the harness runs on every OBSERVED pass of the real compact(): accepted => positions stay
+   distinct, no old page overwritten, measure strictly smaller if anything moved; and the model's own pass is
+   always accepted *)
+Theorem c13_pass_checker_sound : forall m ps, pass_okP m ps = true ->
+  NoDup (pkeys (ren_paths m ps))
+  /\ (forall t, In t (targets m) -> ~ In t (pkeys ps))
+  /\ ((exists e, In e ps /\ in_dom m (fst e) = true) -> lexlt (msr (ren_paths m ps)) (msr ps)).
+Proof. exact pass_okP_sound. Qed.
+
+Theorem c13_model_pass_checked : forall cap f, wfF f = true -> pass_okP (pass_map cap f) (fpaths f) = true.
+Proof. exact pass_map_checked. Qed.
+
+Theorem c13_lexltb_sound : forall l l', lexltb l l' = true -> lexlt l l'.
+Proof. exact lexltb_sound. Qed.
+
+(* ---- non-vacuity: root 0 -> branch 1 -> leaf 5, two single-page trees at 2 and 3; free: 4, 6, 7, ... *)
+Definition ex_forest : forest :=
+  [PNode 0 [] [PNode 1 [] [PNode 5 [(1, 1)] []]]; PNode 2 [(2, 2)] []; PNode 3 [(3, 3)] []].
+
+Example c13_pass_can_raise_the_highest_position :
+  wfF ex_forest = true
+  /\ pass_map 10 ex_forest = [(1, 7); (0, 6); (5, 4)]
+  /\ fids (fst (pass 10 ex_forest)) = [6; 7; 4; 2; 3]
+  /\ maxN (fids ex_forest) = 5 /\ maxN (fids (fst (pass 10 ex_forest))) = 7
+  /\ msr (fpaths ex_forest) = [5; 1; 5] /\ msr (fpaths (fst (pass 10 ex_forest))) = [4; 7; 11].
+Proof. vm_compute. repeat split; reflexivity. Qed.
+
+Example c13_loop_nonvacuous :
+  exists g, compact_loop 10 10 ex_forest = (g, 2%nat, true) /\ fids g = [1; 0; 4; 2; 3] /\ fabs g = fabs ex_forest.
+Proof. eexists. vm_compute. repeat split; reflexivity. Qed.
+
+(* the checker: the model's map is accepted; a map that is not closed under ancestors, a page moved UP, and
+   a target that is an existing page are rejected *)
+Example c13_checker_nonvacuous :
+  pass_okP [(5, 4); (1, 7); (0, 6)] (fpaths ex_forest) = true
+  /\ pass_okP [(5, 4)] (fpaths ex_forest) = false
+  /\ pass_okP [(2, 6)] (fpaths ex_forest) = false
+  /\ pass_okP [(5, 4); (1, 3); (0, 6)] (fpaths ex_forest) = false.
+Proof. vm_compute. repeat split; reflexivity. Qed.
+
+(* without the comparison "target lower than the page" the measure argument is gone: moving the highest
+   page up is a step the checker rejects and the order does not decrease *)
+Example c13_move_up_refuted :
+  lexltb (msr (ren_paths [(2, 6)] (fpaths ex_forest))) (msr (fpaths ex_forest)) = false.
+Proof. vm_compute. reflexivity. Qed.
+
+(* the only numeric constant of the loop: the number of pages one pass looks at (regenerated from
+   transactions.rs on every run); the theorems above hold for every cap >= 1 *)
+Example c13_cap_of_the_code : 1 <= MAX_PAGES_PER_COMPACTION /\ MAX_PAGES_PER_COMPACTION = 1000000.
+Proof. split; [discriminate|reflexivity]. Qed.
